@@ -360,3 +360,78 @@ func sizeClass(n int) string {
 	}
 	return "N>=256"
 }
+
+// NameLengthSweep: a collection whose name has every length from 1 to maxLen (and an index whose field name has the
+// same length modulo 64): batch insert, bulk update, index-served query, drop - audited against the model on the given
+// backends, so that no behaviour depends on how key buffers happen to be sized.
+func NameLengthSweep(run *ev.Run, backends []string, maxLen int, ownTags map[string]bool) {
+	type task struct {
+		b string
+		l int
+	}
+	tasks := []task{}
+	for _, b := range backends {
+		for l := 1; l <= maxLen; l++ {
+			tasks = append(tasks, task{b, l})
+		}
+	}
+	insts := map[string]*drv.Inst{}
+	scr := map[string]*drv.Inst{}
+	lock := make(chan struct{}, 1)
+	lock <- struct{}{}
+	get := func(mp map[string]*drv.Inst, w int, backend string) *drv.Inst {
+		<-lock
+		defer func() { lock <- struct{}{} }()
+		k := fmt.Sprintf("%d/%s", w, backend)
+		if mp[k] == nil {
+			mp[k] = drv.MustOpen(backend)
+		}
+		return mp[k]
+	}
+	defer func() {
+		for _, i := range insts {
+			i.Close()
+		}
+		for _, i := range scr {
+			i.Close()
+		}
+	}()
+	ParallelFor(len(tasks), 0, func(w, ti int) {
+		t := tasks[ti]
+		in, scratch := get(insts, w, t.b), get(scr, w, t.b)
+		if _, err := in.Fresh(nil); err != nil {
+			panic(err)
+		}
+		name := strings.Repeat("n", t.l)
+		field := strings.Repeat("f", t.l%64+1)
+		model := m.NewDB()
+		docs := []m.Doc{}
+		for i := 0; i < 4; i++ {
+			docs = append(docs, m.Doc{"_id": ID(i + 1), field: int64(i % 3), "v": fmt.Sprint(i)})
+		}
+		ops := []m.Op{
+			{K: "createColl", Coll: name}, {K: "createIndex", Coll: name, Field: field}, {K: "insert", Coll: name, Docs: docs},
+			{K: "update", Q: &m.Q{Coll: name, Crit: m.Leaf("gte", field, int64(1))}, Set: map[string]interface{}{field: int64(5)}},
+			{K: "deleteById", Coll: name, Id: ID(1)},
+			{K: "insert", Coll: name, Docs: []m.Doc{{"_id": ID(1), field: "s"}, {"_id": ID(9), field: nil}}},
+		}
+		for oi, o := range ops {
+			_, next, fs := drv.Step(in, model, o)
+			model = next
+			if oi >= 2 {
+				fs = append(fs, drv.AuditAPI(in, model, drv.AuditOpts{})...)
+				fs = append(fs, drv.AuditRaw(in, scratch, model)...)
+			}
+			run.Add("evaluations", 1)
+			for _, f := range fs {
+				if !ownTags[f.Tag] {
+					run.Blocked(f.Tag)
+					continue
+				}
+				run.Violation(fmt.Sprintf("name-length|%s|%s|%s", f.Tag, t.b, o.K), fmt.Sprintf("[%s] collection name of %d bytes, after %s: %s", t.b, t.l, o.K, f.Msg),
+					map[string]interface{}{"engine": "namelength", "backend": t.b, "collection_name_length": t.l, "field_name_length": len(field), "op": o.K, "finding": f.Msg})
+			}
+		}
+		run.Distinct("cases", fmt.Sprintf("namelen/%s/%d", t.b, t.l))
+	})
+}
